@@ -1165,14 +1165,17 @@ class CanBeVaries(Element):
             # (a named element has its datatype in the tables: STRICT does not let 'varies' replace it)
             reference = ('leaf', None, 'varies', None, None, -1)
 
-        if not Validator.is_strict(validation_level) and datatype not in (None, 'varies') \
+        if (not Validator.is_strict(validation_level) or (name is not None and _valid_child_name(name, 'VARIES'))) \
+                and datatype not in (None, 'varies') \
                 and not is_base_datatype(datatype, version) \
                 and not (reference is not None and reference[0] == 'sequence' and reference[2] == datatype):
-            # (a reference that already describes that datatype - e.g. the one of a message profile - is kept)
+            # (a reference that already describes that datatype - e.g. the one of a message profile - is kept;
+            # a component of a varies field has no datatype of its own in the tables: STRICT gives it the structure too)
             version = version or get_default_version()
             children_refs = load_reference(datatype, 'Datatypes_Structs', version)
-            if name is not None:
+            if name is not None and not _valid_child_name(name, 'VARIES'):
                 # first we get the original reference for the long_name, table etc
+                # (a component of a varies field - VARIES_n - has no entry in the tables)
                 orig_ref = load_reference(name, 'Component', version)
                 reference = ('sequence', children_refs, datatype, orig_ref[3], orig_ref[4], orig_ref[5])
             else:
